@@ -10,6 +10,7 @@
     What is PROVED here, for all inputs, over the executable models of the
     parsers that are modelled with explicit [Panic] outcomes and explicit fuel:
       - textual tags, attribute selectors, tag ranges (Model/TagText.v, after fix 802bc14)
+      - dates, times, date-times and ranges (Model/DateTime.v)
       - DICOM JSON values/text  (Model/Json.v,     after fix 0bd6776)
       - RLE Lossless fragments  (Model/Rle.v,      after fix 52b40dc)
       - PDU decoding            (Model/Pdu.v; also stated as C25_read_total)
@@ -21,8 +22,8 @@
     harness/g_fuzz with catch_unwind, a per-case watchdog and a child process
     per batch): file opening / preamble logic, file meta reader, lazy reader,
     collector, JPEG / deflate / JPEG-LS / J2K / JXL decoders,
-    multi-byte text decoders, serde_json's text layer, dump (date/time/range parser
-    totality: see C12_parse_total; file meta reader: C09_read_total, when present). Known finding (KNOWN_FINDINGS.txt, class
+    multi-byte text decoders, serde_json's text layer, dump (file meta reader totality:
+    C09_read_total, when present). Known finding (KNOWN_FINDINGS.txt, class
     prealloc-declared-length): value readers allocate the declared value
     length before reading, up to 4 GiB for a 12-byte input. *)
 From DicomV Require Import Base.Prelude.
@@ -31,6 +32,7 @@ From DicomV Require Model.Json Proofs.JsonTotalP.
 From DicomV Require Model.Rle Proofs.RleTotalP.
 From DicomV Require Base.Endian Model.ValueRead Proofs.ValueReadP.
 From DicomV Require Model.Pdu Proofs.PduTotalP.
+From DicomV Require Model.DateTime Proofs.DateTimeTotalP.
 (* the four models define clashing short names ([len], [E_custom], ...): nothing is imported,
    every identifier below is qualified by its model *)
 
@@ -47,6 +49,23 @@ Proof. intros. apply TagTotalP.parse_selector_release_total, RustStrP.utf8_ascii
 Theorem C05_tag_range_total : forall (cps : str) w,
   TagText.tag_range_from_str (RustStr.utf8 cps) <> Panic w.
 Proof. intros. apply TagTotalP.tag_range_no_panic, RustStrP.utf8_ascii_sync. Qed.
+
+(** Dates, times, date-times and their ranges from ANY byte string (every slice, unwrap and
+    u32 product of deserialize.rs / range.rs / partial.rs is an explicit [Panic] in the model). *)
+Theorem C05_datetime_total : forall (s : bytes) (w : N),
+  DateTime.parse_date_partial s <> Panic w /\ DateTime.parse_time_partial s <> Panic w
+  /\ DateTime.parse_datetime_partial s <> Panic w
+  /\ DateTime.parse_date s <> Panic w /\ DateTime.parse_time s <> Panic w
+  /\ DateTime.parse_date_range s <> Panic w /\ DateTime.parse_time_range s <> Panic w
+  /\ (forall mode, DateTime.parse_datetime_range mode s <> Panic w).
+Proof.
+  intros s w. repeat split.
+  - apply DateTimeTotalP.parse_date_partial_np. - apply DateTimeTotalP.parse_time_partial_np.
+  - apply DateTimeTotalP.parse_datetime_partial_np.
+  - apply DateTimeTotalP.parse_date_np. - apply DateTimeTotalP.parse_time_np.
+  - apply DateTimeTotalP.parse_date_range_np. - apply DateTimeTotalP.parse_time_range_np.
+  - intros mode. apply DateTimeTotalP.parse_datetime_range_np.
+Qed.
 
 (** [dicom_json::from_value] on ANY JSON value, and [from_str] on any syntactically valid
     JSON text (documents may repeat keys), for any float<->text functions [X]. *)
@@ -91,3 +110,4 @@ Print Assumptions C05_eager_next_terminates.
 Print Assumptions C05_pdu_total.
 Print Assumptions C05_selector_total.
 Print Assumptions C05_tag_range_total.
+Print Assumptions C05_datetime_total.
